@@ -24,6 +24,49 @@ def gen(tier, seed):
     return atoms, pairs, triples, rnd
 
 
+def nearly_equal_constants(chk):
+    """Oracle only (the model's constants are abstract points of a linear order, so it has nothing to add here): pairs of scalar
+    atoms whose constants are NEARLY equal -- adjacent doubles, 0.1 + 0.2 against 0.3, 1e16 and its neighbours, an int and the
+    doubles around it -- under &, |, ^ and ~, optimize(p) against p on those constants and the points between them."""
+    import math
+
+    from predicate import eq_p, ge_p, gt_p, in_p, le_p, lt_p, ne_p, not_in_p, optimize
+
+    n = 0
+    for c in (0.3, 1.0, 1e16, 100):
+        f = float(c)
+        cs = sorted({c, math.nextafter(f, math.inf), math.nextafter(f, -math.inf), f * (1 + 1e-12), f * (1 - 1e-12)} | ({0.1 + 0.2} if c == 0.3 else set()))
+        probes = cs + [(a + b) / 2 for a, b in zip(cs, cs[1:])] + [f - 1, f + 1]
+        atoms = []
+        for v in cs:
+            atoms += [(f"eq_p({v!r})", eq_p(v)), (f"ne_p({v!r})", ne_p(v)), (f"ge_p({v!r})", ge_p(v)), (f"gt_p({v!r})", gt_p(v)), (f"le_p({v!r})", le_p(v)), (f"lt_p({v!r})", lt_p(v)),
+                      (f"in_p({v!r}, 5)", in_p(v, 5)), (f"not_in_p({v!r}, 5)", not_in_p(v, 5))]
+        for (da, a), (db, b) in itertools.product(atoms, atoms):
+            for sym, t in (("&", a & b), ("|", a | b), ("^", a ^ b), ("& ~", a & ~b), ("| ~", a | ~b)):
+                n += 1
+                try:
+                    o = optcorr._watchdog(lambda t=t: optimize(t), ("tt",))
+                except optcorr.HarnessError:
+                    raise
+                except Exception as e:  # noqa: BLE001
+                    chk.add_failure(f"{da} {sym} {db}", {"what": f"optimize raised {type(e).__name__} on comparable float constants"}, None)
+                    continue
+                for x in probes:
+                    try:
+                        want = bool(t(x))
+                    except Exception:  # noqa: BLE001
+                        continue
+                    try:
+                        got = bool(o(x))
+                    except Exception as e:  # noqa: BLE001
+                        got = f"raised {type(e).__name__}"
+                    if got != want:
+                        chk.add_failure(f"{da} {sym} {db}", {"what": "optimize changes the answer at a value next to a constant", "optimized": repr(o), "value": repr(x), "original_value": want, "optimized_value": got}, None)
+                        break
+        chk.evaluations += len(atoms) ** 2 * 5
+    return n
+
+
 def main(tier):
     chk = Check("C02", tier)
     chk.prove(checker=(tier == "thorough"))
@@ -41,6 +84,8 @@ def main(tier):
     optcorr.run(chk, "opt/print-alike-constants", cases.printalike_trees(), cfg, optcorr.values_differ(pa_values), share=True)
     ev_preds = atoms + [("not", a) for a in atoms] + [(op, a, b) for op in ("and", "or", "xor") for a, b in itertools.product(atoms[:30], atoms[10:25])]
     evalcorr.run(chk, "eval/atoms+pairs", ev_preds, cases.SCALAR_VALUES)
+    near_n = nearly_equal_constants(chk)
+    chk.extra["nearly_equal_constant_trees"] = near_n
     chk.rule = (
         "grid of %d scalar atoms (eq/ne/ge/gt/le/lt at 1,2,3; four range forms; in/not_in at 6 sets incl. empty and singleton; none/truthy; type tests incl. "
         "overlapping class tuples; two function atoms; constants): every a, ~a, a.b, ~a.b, a.~b, ~(a.b) for . in &,|,^; three-atom shapes; random shared trees; pair shapes over 9, 10 interleaved with the same shapes over '9', '10'; every stream re-run over digit-string twins of its constants. "
